@@ -131,6 +131,9 @@ func Check(t *testing.T, n int, salt uint64, prop func(*rapid.T)) {
 // satisfies the property's non-triviality rule; sample is only called for
 // the first few non-trivial cases.
 func (c *Collector) Case(key string, nontrivial bool, sample func() any, classes ...string) {
+	if c == nil {
+		return
+	}
 	c.mu.Lock()
 	defer c.mu.Unlock()
 	c.evaluations++
@@ -154,6 +157,9 @@ func (c *Collector) Case(key string, nontrivial bool, sample func() any, classes
 
 // Class bumps a class counter without counting an evaluation.
 func (c *Collector) Class(classes ...string) {
+	if c == nil {
+		return
+	}
 	c.mu.Lock()
 	defer c.mu.Unlock()
 	for _, cl := range classes {
@@ -164,18 +170,27 @@ func (c *Collector) Class(classes ...string) {
 // Excluded counts a case (or comparison) skipped because it falls in the
 // class of a listed known finding.
 func (c *Collector) Excluded(finding string) {
+	if c == nil {
+		return
+	}
 	c.mu.Lock()
 	defer c.mu.Unlock()
 	c.excluded[finding]++
 }
 
 func (c *Collector) Set(key string, v any) {
+	if c == nil {
+		return
+	}
 	c.mu.Lock()
 	defer c.mu.Unlock()
 	c.extra[key] = v
 }
 
 func (c *Collector) Add(key string, n int) {
+	if c == nil {
+		return
+	}
 	c.mu.Lock()
 	defer c.mu.Unlock()
 	cur, _ := c.extra[key].(int)
@@ -183,6 +198,9 @@ func (c *Collector) Add(key string, n int) {
 }
 
 func (c *Collector) Known(line string) {
+	if c == nil {
+		return
+	}
 	c.mu.Lock()
 	defer c.mu.Unlock()
 	c.known = append(c.known, line)
